@@ -180,6 +180,30 @@ def run_sweep(case, ctx):
                     "%s k=%d cin=%d f=%d input %d, strides %d padding %s dilation %d: reports %r operations, the loop nest performs %d" % (
                         kind, k, cin, f, size, stride, pad, dil, got, expect),
                     {"variants_before": variants[:5]})
+  # a transposed convolution with unit stride and "same" padding is a convolution with the flipped kernel: its
+  # loop nest has out_h * out_w * filters * k * k * cin multiply-accumulates (the stock class; the quantized one
+  # cannot be called under the pinned TensorFlow).  The kernel is stored as (k, k, filters, cin).
+  if case["sweep"] % 2 == 0:
+    from qkeras.qtools import qtools_util
+    tf.keras.backend.clear_session()
+    ft = f + 1 if f == cin else f
+    base = {"part": "count", "route": "direct", "cls": "Conv2DTranspose"}
+    def mkt():
+      inp = tf.keras.layers.Input((size, size, cin), name="in_t")
+      lt = tf.keras.layers.Conv2DTranspose(ft, (k, k), strides=(1, 1), padding="same", name="sweep_convt")
+      lt(inp)
+      return lt
+    ok, lt = ctx.call(dict(base, op="build_sweep_model"), mkt)
+    if ok:
+      ok, got = ctx.call(dict(base, op="get_operation_count"), qtools_util.get_operation_count, lt, (None, size, size, cin))
+      if ok:
+        ctx.count("sweep.transposed")
+        ctx.evals(1)
+        expect = size * size * ft * k * k * cin
+        if got is None or int(got) != expect:
+          ctx.violation(dict(base, kind="count_mismatch_in_geometry_sweep", reported="zero" if not got else "nonzero"),
+                        "Conv2DTranspose k=%d cin=%d f=%d input %d, stride 1, same: reports %r operations, the loop nest performs %d" % (
+                            k, cin, ft, size, got, expect), None)
 
 
 def expand(case, tier):
